@@ -77,10 +77,31 @@ def model(tier):
                        constants=consts, timeout=3000, env=JENV)
 
 
+CE_FAILED = {}
+
+
 def build_drivers(impls=("etl", "std")):
+    """The etl build evaluates the bit functions on tables of in-domain arguments at compile time.  If that does not
+    compile (a function is not a constant expression there: undefined behaviour the compiler diagnoses), the driver is
+    rebuilt without the tables and the failure itself becomes an event (see pipeline)."""
     jobs = {"etl": dict(src="intmath_driver.cpp", out="intmath_etl", std="c++23", flags=CXXFLAGS),
             "std": dict(src="intmath_driver.cpp", out="intmath_std", std="c++23", flags=CXXFLAGS + ["-DVH_STD"], include_repo=False)}
-    p = vlib.build_many([jobs[i] for i in impls])
+    CE_FAILED.clear()
+
+    def one(i):
+        try:
+            return vlib.build(**jobs[i])
+        except vlib.ModelFailure as e:
+            msg = str(e)
+            if i != "etl" or not ("constexpr" in msg or "constant expression" in msg):
+                raise
+            line = next((l for l in msg.splitlines() if "error:" in l), msg[-300:])
+            CE_FAILED["report"] = line.strip()[:300]
+            j = dict(jobs[i])
+            j["flags"] = list(j["flags"]) + ["-DVH_NO_CE"]
+            return vlib.build(**j)
+    with ThreadPoolExecutor(max_workers=2) as ex:
+        p = list(ex.map(one, impls))
     return dict(zip(impls, p))
 
 
@@ -125,6 +146,12 @@ def pipeline(tier, rep, calibrate=True):
             t16, tw, errs = run_sweeps(tier, bins, impl)
             traps[impl] = _traps(errs)
             nfiles = len(t16) + len(tw)
+            if impl == "etl" and CE_FAILED:
+                # compile-time evaluation of an in-domain call was rejected by the compiler: judged like any other crash
+                with open(t16[0], "a") as f:
+                    f.write(json.dumps({"op": "crash", "w": 8, "s": 0, "x": 0, "of": "constant_evaluation",
+                                        "report": CE_FAILED["report"]}) + "\n")
+                rep.notes.append("the compile-time tables of the driver did not compile: " + CE_FAILED["report"])
             # wide events cost ~10x a 16-bit one: balance them over their own chunks
             chunks = _split(t16, 2 if tier == "quick" else 16, os.path.join(d, "intmath_%s_%s_c16" % (impl, tier))) \
                 + _split(tw, 4 if tier == "quick" else 16, os.path.join(d, "intmath_%s_%s_cw" % (impl, tier)))
